@@ -11,7 +11,7 @@ from vf import bgzf, conv, core, gen_gaf, gen_graph, models
 @st.composite
 def indexed_file(draw, tier, max_records=30, min_records=1):
     """graph + GAF (unstable or model-stable; plain or BGZF with drawn block cuts)."""
-    g = draw(gen_graph.rgfa(max_chroms=2, max_elements=5, cycles=True))
+    g = draw(gen_graph.any_graph(tier, max_chroms=2, max_elements=5, cycles=True))
     lm = models.LinkModel(g["links"])
     n = draw(st.integers(min_records, max_records))
     stable = draw(st.booleans())
@@ -95,6 +95,8 @@ def build_index(gaf_path, gfa_path, out):
 
 def file_classes(case, table):
     cl = ["stable" if case["stable"] else "unstable", "bgzf" if case.get("bgzf") else "plain"]
+    if "SN:Z:chr1_" in case["gfa"] or "\ts2" in case["gfa"] and "SO:i:1" in case["gfa"] and len(case["gfa"]) > 3000 and "sniffles" in case["gfa"]:
+        cl.append("real_graph_window")
     if table is not None:
         cl.append("bgzf_blocks:%d" % min(len(table), 4))
         # a record starting beyond the first block / a line straddling a block boundary
